@@ -212,14 +212,16 @@ pub fn check(ctx: &Ctx) -> i32 {
     // far from zero: capture clocks that have been running for hours or years. The absolute
     // time is not stored anywhere, only differences are - around 2^32 ticks (13 h 15 min) and
     // beyond, every narrowing of an absolute timestamp shows as a collapsed or shifted track
-    let bases = [47_721.0, 47_721.5, 47_722.0, 50_000.0, 95_443.5, 1.0e6, 3.0e8, 1.0e9];
+    let bases = [0.0, 47_721.0, 47_721.5, 47_722.0, 50_000.0, 95_443.5, 1.0e6, 3.0e8, 1.0e9];
     let tf = par_items(&bases, ctx.seed, |idx, &base, t| {
         let mut k = 0u64;
         for codec in [VCodec::H264, VCodec::Vp9] {
             for ac in [ACodec::AacLc, ACodec::Opus] {
                 for fast in [true, false] {
                     for lead in [0.0, 0.25] {
-                        for asteps in [[1024.0 / 48000.0, 1024.0 / 48000.0], [0.5, 0.02], [0.25, 0.5]] {
+                        // (the last two: an audio track of more than 2^31 ticks - 6 h 37 min - next to a
+                        // short video track: header fields change meaning past the signed 32-bit range)
+                        for asteps in [[1024.0 / 48000.0, 1024.0 / 48000.0], [0.5, 0.02], [0.25, 0.5], [8000.0, 8000.0], [7900.0, 7900.0]] {
                             for reordered in [false, true] {
                                 let cfg = Cfg::basic(codec, Some(ac), fast);
                                 let mut ops = vec![];
@@ -301,7 +303,7 @@ pub fn check(ctx: &Ctx) -> i32 {
         &tally,
         Meta {
             level: "model_checking",
-            rule: format!("every A/V history over: first video decode time {{0, 1/30, 1, 10 s}} x first video composition offset {{0, +2 frames}} x audio start minus first video presentation {{0, 1 tick, 1024/48000, 0.25, 3 s}} x 2-3 video frames x 2-3 audio frames x audio step pattern {{1024/48000, 1024/44100, 0.02, 0, (0, 1024/48000), (0.02, 0), (0.5, 0.02), (0.003, 0.5): pauses and overlaps relative to the packets' coded durations}}, plus runs of 8 and 12 audio frames at the 48 kHz and 44.1 kHz AAC spacings, plus every audio step sequence of 2..{jmax} steps over {{600, 1200, 1800, 3000}} ticks ({n_jitter} sequences x AAC/Opus), plus every standard AAC sample rate (7350 .. 96000 Hz) x 3 sub-sample displacement patterns (0-30 microseconds) x 2 start times x both layouts, plus {n_conv} encode_video/encode_audio histories (every sequence of 2..5 audio frame lengths over Opus {{10, 20, 40, 60 ms}} and AAC {{1024, 2048}}), plus 3 video + 3 audio frames starting 47721 s .. 1e9 s from zero (both sides of 2^32 and 2^33 ticks, audio runs that straddle 2^32 ticks) x plain/reordered video x 3 audio step patterns x 2 leads x H.264/VP9, plus four long histories (66 000 audio frames 1920 ticks apart, 66 000 video frames 3000 ticks apart, both layouts), x {{AAC, Opus}} x both layouts x codecs; executed on the real muxer; per-track presentation timelines rebuilt from stts/ctts (+ edit list if present, empty edits and media_time honoured) and every audio sample's presentation time relative to the first video frame compared with the submitted difference (tolerance 1 tick). Distinct by output bytes."),
+            rule: format!("every A/V history over: first video decode time {{0, 1/30, 1, 10 s}} x first video composition offset {{0, +2 frames}} x audio start minus first video presentation {{0, 1 tick, 1024/48000, 0.25, 3 s}} x 2-3 video frames x 2-3 audio frames x audio step pattern {{1024/48000, 1024/44100, 0.02, 0, (0, 1024/48000), (0.02, 0), (0.5, 0.02), (0.003, 0.5): pauses and overlaps relative to the packets' coded durations}}, plus runs of 8 and 12 audio frames at the 48 kHz and 44.1 kHz AAC spacings, plus every audio step sequence of 2..{jmax} steps over {{600, 1200, 1800, 3000}} ticks ({n_jitter} sequences x AAC/Opus), plus every standard AAC sample rate (7350 .. 96000 Hz) x 3 sub-sample displacement patterns (0-30 microseconds) x 2 start times x both layouts, plus {n_conv} encode_video/encode_audio histories (every sequence of 2..5 audio frame lengths over Opus {{10, 20, 40, 60 ms}} and AAC {{1024, 2048}}), plus 3 video + 3 audio frames starting 47721 s .. 1e9 s from zero (both sides of 2^32 and 2^33 ticks, audio runs that straddle 2^32 ticks) x plain/reordered video x 5 audio step patterns (two of them 7900 s and 8000 s apart: audio tracks around 2^31 ticks long) x 2 leads x H.264/VP9, also from 0, plus four long histories (66 000 audio frames 1920 ticks apart, 66 000 video frames 3000 ticks apart, both layouts), x {{AAC, Opus}} x both layouts x codecs; executed on the real muxer; per-track presentation timelines rebuilt from stts/ctts (+ edit list if present, empty edits and media_time honoured) and every audio sample's presentation time relative to the first video frame compared with the submitted difference (tolerance 1 tick). Distinct by output bytes."),
             bound: "2-3 video frames, 2-3 audio frames (8 and 12 for the two constant spacings)".into(),
             exhaustive: true,
             assumptions: vec!["the known finding C09/no-start-offset is matched only when neither track has an edit list and every audio sample is off by exactly the lost start offset; any other deviation is reported as a violation".into()],
